@@ -364,6 +364,10 @@ class Frontend:
                 cls = "BaseException"
             elif isinstance(h.type, ast.Name):
                 cls = h.type.id
+            elif isinstance(h.type, ast.Attribute):
+                cls = h.type.attr
+            elif isinstance(h.type, ast.Tuple) and all(isinstance(e, (ast.Name, ast.Attribute)) for e in h.type.elts):
+                cls = tuple(e.id if isinstance(e, ast.Name) else e.attr for e in h.type.elts)
             else:
                 raise Unsupported(f"except clause type at line {h.lineno}")
             br = self.emit(ctx, "branch", ("excmatch", cls), None, h.lineno)
